@@ -71,6 +71,15 @@ def tweak(world, rng):
             continue
         new = rng.choice([par + b"/gone-zz/../" + name, pp + b"/gone-zz/../" + last + b"/./" + name,
                           par + b"/./" + name, pp + b"/gone-zz/gone-yy/../../" + last + b"/" + name])
+        if rng.random() < 0.35 and par + b"/jump-xx" not in nodes and b"/SBX/outside/deep" not in nodes \
+                and nodes.get(par, {}).get("k") == "d":
+            # through a symbolic link and up again: the kernel ends up next to where the LINK leads (a free place there),
+            # the text collapses to the directory the link lives in (where a file of that name exists)
+            for q in (b"/SBX/outside", b"/SBX/outside/deep", b"/SBX/outside/deep/inner"):
+                if q not in nodes:
+                    nodes[q] = {"p": q, "k": "d", "mode": 0o755, "mtime": 1000000320}
+            nodes[par + b"/jump-xx"] = {"p": par + b"/jump-xx", "k": "l", "target": b"/SBX/outside/deep/inner"}
+            new = par + b"/jump-xx/../" + name
         rec = new if e["rec"] == e["loc"] else (new[len(e["base"].rstrip(b"/")) + 1:] if e.get("base") and new.startswith(e["base"].rstrip(b"/") + b"/") else None)
         if rec is None:
             continue
